@@ -154,6 +154,9 @@ theorem hasSub_iff_mem {P : Sub → Prop} (m : List (Str × Sub)) (hnd : (m.map 
   · rintro ⟨sub, h, hp⟩
     exact ⟨sub, assocGet_of_mem_nodup _ _ _ hnd h, hp⟩
 
+/-- exactly one `x` has `p` (core Lean has no `∃!`) -/
+def ExactlyOne {α : Type} (p : α → Prop) : Prop := ∃ x, p x ∧ ∀ y, p y → y = x
+
 /-- client `c` is the member picked for the `k`-th candidate entry -/
 def ChosenAt (seed : Nat) (l : List (Str × List (Str × Sub))) (k : Nat) (c : Str) : Prop :=
   ∃ sub, pickAt seed l k = some (c, sub)
@@ -168,8 +171,7 @@ def ChosenAt (seed : Nat) (l : List (Str × List (Str × Sub))) (k : Nat) (c : S
     4. the selection has one entry per client (a client picked for several entries is merged). -/
 theorem selectShared_exact (seed : Nat) (r : Subscribers) (hne : ∀ g ∈ r.shared, g.2 ≠ []) :
     (∀ k (hk : k < r.shared.length),
-      ∃ c, (c ∈ (r.shared[k]).2.map Prod.fst ∧ ChosenAt seed r.shared k c) ∧
-        ∀ c', (c' ∈ (r.shared[k]).2.map Prod.fst ∧ ChosenAt seed r.shared k c') → c' = c) ∧
+      ExactlyOne fun c => c ∈ (r.shared[k]).2.map Prod.fst ∧ ChosenAt seed r.shared k c) ∧
     (∀ c, c ∈ (selectShared seed r).map Prod.fst ↔ ∃ k, ChosenAt seed r.shared k c) ∧
     (∀ g ∈ r.shared, ∀ c ∈ g.2.map Prod.fst, (¬ ∃ k, ChosenAt seed r.shared k c) →
       c ∉ (selectShared seed r).map Prod.fst) ∧
@@ -197,5 +199,363 @@ theorem selectShared_exact (seed : Nat) (r : Subscribers) (hne : ∀ g ∈ r.sha
     exact hn ((h2 c).mp hc)
   · rw [selectShared_eq_picks]
     exact nodup_mergeFold _ _ List.nodup_nil
+
+/-! ## The subscriber map with the selected shared members, and the publish as a fold over it -/
+
+/-- the subscriber map `publishToSubscribers` iterates: the plain entries, and — if any shared subscription
+    matches — the selected members merged in -/
+def subsMapOf (s : Server) (topic : Str) : List (Str × Sub) :=
+  if (subscribers s.topics topic).shared.length > 0 then
+    mergeSharedSelected (subscribers s.topics topic).subs
+      (selectShared s.pickSeed
+        { subscribers s.topics topic with shared := permuteBy s.orderSeed (subscribers s.topics topic).shared })
+  else (subscribers s.topics topic).subs
+
+/-- the candidate entries in the order they are visited (`orderSeed` resolves Go's map order) -/
+def visitOrder (s : Server) (topic : Str) : List (Str × List (Str × Sub)) :=
+  permuteBy s.orderSeed (subscribers s.topics topic).shared
+
+/-- the members picked (`pickSeed`), one per candidate entry with members, in visiting order -/
+def sharedPicks (s : Server) (topic : Str) : List (Str × Sub) := picks s.pickSeed (visitOrder s topic)
+
+theorem subsMapOf_eq (s : Server) (topic : Str) :
+    subsMapOf s topic =
+      ((sharedPicks s topic).foldl mergeOne []).foldl mergeOne (subscribers s.topics topic).subs := by
+  unfold subsMapOf sharedPicks visitOrder
+  split
+  · rw [mergeSharedSelected_eq, selectShared_eq_picks]
+  · rename_i h
+    have : (subscribers s.topics topic).shared = [] := List.eq_nil_of_length_eq_zero (by omega)
+    rw [this]
+    rfl
+
+theorem subsMapOf_nodup (s : Server) (topic : Str) : ((subsMapOf s topic).map Prod.fst).Nodup := by
+  rw [subsMapOf_eq]
+  exact nodup_mergeFold _ _ (C03_one_entry_per_client s.topics topic)
+
+/-- the merged subscription of client `c` in the subscriber map has the disjunctive property `P` iff its plain
+    entry has, or a subscription it was picked with has -/
+theorem hasSub_subsMapOf {P : Sub → Prop} (hP : MergeOr P) (s : Server) (topic c : Str) :
+    HasSub P (subsMapOf s topic) c ↔
+      HasSub P (subscribers s.topics topic).subs c ∨ ∃ sub, (c, sub) ∈ sharedPicks s topic ∧ P sub := by
+  have hnd : (((sharedPicks s topic).foldl mergeOne []).map Prod.fst).Nodup :=
+    nodup_mergeFold (sharedPicks s topic) [] List.nodup_nil
+  rw [subsMapOf_eq, hasSub_mergeFold hP, ← hasSub_iff_mem _ hnd, hasSub_mergeFold hP]
+  constructor
+  · rintro (h | h | h)
+    · exact Or.inl h
+    · exact absurd h (not_hasSub_nil _ _)
+    · exact Or.inr h
+  · rintro (h | h)
+    · exact Or.inl h
+    · exact Or.inr (Or.inr h)
+
+theorem publishToSubscribers_eq_fold_shared (s : Server) (pk : Msg) (hig : pk.ignore = false) :
+    publishToSubscribers s pk =
+      (subsMapOf s pk.topic).foldl (deliverStep (stamped s pk))
+        (s, (subscribers s.topics pk.topic).inline.map fun x => Out.inline x.1 pk.topic pk.payload) := by
+  have htop := (stamped_fields s pk).1
+  have hpay := (stamped_fields s pk).2.1
+  unfold publishToSubscribers
+  rw [if_neg (by rw [hig]; exact Bool.false_ne_true)]
+  show (subsMapOf s (stamped s pk).topic).foldl (deliverStep (stamped s pk))
+      (s, (subscribers s.topics (stamped s pk).topic).inline.map
+        fun x => Out.inline x.1 (stamped s pk).topic (stamped s pk).payload) = _
+  rw [htop, hpay]
+
+/-- the connections written a PUBLISH, in order, are the recipients of the entries of the subscriber map (plain
+    and selected shared, merged), in order — no hypothesis on shared subscriptions -/
+theorem publishToSubscribers_pubConns_shared (s : Server) (pk : Msg)
+    (hcv : ∀ id i, (id, i) ∈ s.clients → i < s.objs.length)
+    (hig : pk.ignore = false) (ht : pk.type = 3)
+    (hq : pk.qos = 0 ∨ ∀ cs ∈ subsMapOf s pk.topic, cs.2.qos = 0) :
+    (publishToSubscribers s pk).2.filterMap pubConn = (subsMapOf s pk.topic).filterMap (recipient s pk) ∧
+    ∀ x ∈ (publishToSubscribers s pk).2, (∃ id, x = Out.inline id pk.topic pk.payload) ∨ IsCopy pk x := by
+  rw [publishToSubscribers_eq_fold_shared s pk hig]
+  obtain ⟨_, _, q3, q4⟩ := fold_pubConns s (stamped s pk) hcv
+    ((stamped_fields s pk).2.2.2.1.trans ht) (subsMapOf s pk.topic)
+    (hq.imp (fun h => (stamped_fields s pk).2.2.1.trans h) id)
+    (s, (subscribers s.topics pk.topic).inline.map fun x => Out.inline x.1 pk.topic pk.payload) (Deliv.refl s) rfl
+  refine ⟨?_, ?_⟩
+  · rw [q3, recipient_stamped]
+    have : ((subscribers s.topics pk.topic).inline.map fun x => Out.inline x.1 pk.topic pk.payload).filterMap pubConn
+        = [] := by
+      rw [List.filterMap_map]
+      apply List.filterMap_eq_nil_iff.mpr
+      intro a _
+      rfl
+    show List.filterMap pubConn _ ++ _ = _
+    rw [this, List.nil_append]
+  · intro x hx
+    rcases q4 x hx with h | h
+    · obtain ⟨a, _, rfl⟩ := List.mem_map.mp h
+      exact Or.inl ⟨a.1, rfl⟩
+    · exact Or.inr (IsCopy_stamped h)
+
+/-! ## Who is entitled, with shared subscriptions -/
+
+/-- client `cid` was picked, with subscription `sub`, for some candidate entry matching `topic` (picked by
+    `s.pickSeed` among the members of the entry, the entries visited in the order `permuteBy s.orderSeed`) -/
+def PickedWith (s : Server) (topic cid : Str) (sub : Sub) : Prop :=
+  ∃ k, pickAt s.pickSeed (visitOrder s topic) k = some (cid, sub)
+
+theorem mem_sharedPicks (s : Server) (topic cid : Str) (sub : Sub) :
+    (cid, sub) ∈ sharedPicks s topic ↔ PickedWith s topic cid sub := mem_picks _ _ _
+
+/-- **entitlement with shared subscriptions, as the model implements it.**  Connection `n` belongs to a client
+    object registered under its id `cid`, open, not inline, peer not gone, `cid` may read the topic, and
+
+    * `cid` has an entry in the map of matching PLAIN subscriptions, **or** `cid` is the member picked for some
+      matching candidate entry (F06: a candidate entry is one FILTER of one share name — a share name with two
+      matching filters is two candidate entries, each with its own pick);
+    * (F03) it is not the case that `cid` is the publisher and No Local is set on its merged plain entry OR on a
+      subscription it was picked with: `Subscription.Merge` ORs No Local over everything merged under one id. -/
+def EntitledShared (s : Server) (pk : Msg) (n : Nat) : Prop :=
+  ∃ cid i, (cid, i) ∈ s.clients ∧ (getObj s i).conn = n ∧ (getObj s i).isOpen = true ∧
+    (getObj s i).inline = false ∧ (getObj s i).peerGone = false ∧ aclOk s cid pk.topic false = true ∧
+    ((∃ sub, (cid, sub) ∈ (subscribers s.topics pk.topic).subs) ∨ (∃ sub, PickedWith s pk.topic cid sub)) ∧
+    ¬ (pk.origin = cid ∧
+        ((∃ sub, (cid, sub) ∈ (subscribers s.topics pk.topic).subs ∧ sub.noLocal = true) ∨
+         (∃ sub, PickedWith s pk.topic cid sub ∧ sub.noLocal = true)))
+
+theorem entitledVia_subsMapOf_iff (s : Server) (pk : Msg) (n : Nat) :
+    EntitledVia s pk (subsMapOf s pk.topic) n ↔ EntitledShared s pk n := by
+  have hnd := subsMapOf_nodup s pk.topic
+  have hnds := C03_one_entry_per_client s.topics pk.topic
+  have hkey := fun c => hasSub_subsMapOf mergeOr_true s pk.topic c
+  have hnl := fun c => hasSub_subsMapOf mergeOr_noLocal s pk.topic c
+  constructor
+  · rintro ⟨cid, i, sub, h1, h2, h3, h4, h5, hs, h7, h8⟩
+    have hg := assocGet_of_mem_nodup _ _ _ hnd hs
+    refine ⟨cid, i, h1, h2, h3, h4, h5, h7, ?_, ?_⟩
+    · rcases (hkey cid).mp ⟨sub, hg, trivial⟩ with h | ⟨sub', h, _⟩
+      · obtain ⟨sub', h, _⟩ := (hasSub_iff_mem _ hnds cid).mp h
+        exact Or.inl ⟨sub', h⟩
+      · exact Or.inr ⟨sub', (mem_sharedPicks _ _ _ _).mp h⟩
+    · rintro ⟨ho, hex⟩
+      have : HasSub (fun sub => sub.noLocal = true) (subsMapOf s pk.topic) cid := by
+        apply (hnl cid).mpr
+        rcases hex with ⟨sub', h, hn⟩ | ⟨sub', h, hn⟩
+        · exact Or.inl ((hasSub_iff_mem _ hnds cid).mpr ⟨sub', h, hn⟩)
+        · exact Or.inr ⟨sub', (mem_sharedPicks _ _ _ _).mpr h, hn⟩
+      obtain ⟨sub', hg', hn'⟩ := this
+      rw [hg] at hg'
+      cases hg'
+      rw [hn', ho] at h8
+      simp at h8
+  · rintro ⟨cid, i, h1, h2, h3, h4, h5, h7, h6, h8⟩
+    have : HasSub (fun _ => True) (subsMapOf s pk.topic) cid := by
+      apply (hkey cid).mpr
+      rcases h6 with ⟨sub', h⟩ | ⟨sub', h⟩
+      · exact Or.inl ((hasSub_iff_mem _ hnds cid).mpr ⟨sub', h, trivial⟩)
+      · exact Or.inr ⟨sub', (mem_sharedPicks _ _ _ _).mpr h, trivial⟩
+    obtain ⟨sub, hg, _⟩ := this
+    refine ⟨cid, i, sub, h1, h2, h3, h4, h5, assocGet_mem _ _ _ hg, h7, ?_⟩
+    cases hs : sub.noLocal with
+    | false => rfl
+    | true =>
+      by_cases ho : pk.origin = cid
+      · exfalso
+        apply h8
+        refine ⟨ho, ?_⟩
+        rcases (hnl cid).mp ⟨sub, hg, hs⟩ with h | ⟨sub', h, hn⟩
+        · obtain ⟨sub', h, hn⟩ := (hasSub_iff_mem _ hnds cid).mp h
+          exact Or.inl ⟨sub', h, hn⟩
+        · exact Or.inr ⟨sub', (mem_sharedPicks _ _ _ _).mp h, hn⟩
+      · simp [ho]
+
+/-- entitled through a subscription it was picked with: `EntitledVia` over the list of picks -/
+abbrev EntitledPicked (s : Server) (pk : Msg) (n : Nat) : Prop := EntitledVia s pk (sharedPicks s pk.topic) n
+
+/-- the publisher holds `sub` for this topic: as its merged plain entry, or as a subscription it was picked with -/
+def HeldByPublisher (s : Server) (pk : Msg) (sub : Sub) : Prop :=
+  (pk.origin, sub) ∈ (subscribers s.topics pk.topic).subs ∨ PickedWith s pk.topic pk.origin sub
+
+/-- the F03 situation across plain and shared subscriptions: the publisher holds, for this topic, one subscription
+    (merged plain entry or pick) with No Local and one without -/
+def NoLocalMixedShared (s : Server) (pk : Msg) : Prop :=
+  ∃ sub sub', HeldByPublisher s pk sub ∧ sub.noLocal = true ∧ HeldByPublisher s pk sub' ∧ sub'.noLocal = false
+
+/-- whoever is entitled is entitled through the plain entry or through a pick … -/
+theorem EntitledShared.or {s : Server} {pk : Msg} {n : Nat} (h : EntitledShared s pk n) :
+    EntitledVia s pk (subscribers s.topics pk.topic).subs n ∨ EntitledPicked s pk n := by
+  obtain ⟨cid, i, h1, h2, h3, h4, h5, h7, h6, h8⟩ := h
+  rcases h6 with ⟨sub, hs⟩ | ⟨sub, hs⟩
+  · refine Or.inl ⟨cid, i, sub, h1, h2, h3, h4, h5, hs, h7, ?_⟩
+    cases hn : sub.noLocal with
+    | false => rfl
+    | true =>
+      by_cases ho : pk.origin = cid
+      · exact absurd ⟨ho, Or.inl ⟨sub, hs, hn⟩⟩ h8
+      · simp [ho]
+  · refine Or.inr ⟨cid, i, sub, h1, h2, h3, h4, h5, (mem_sharedPicks _ _ _ _).mpr hs, h7, ?_⟩
+    cases hn : sub.noLocal with
+    | false => rfl
+    | true =>
+      by_cases ho : pk.origin = cid
+      · exact absurd ⟨ho, Or.inr ⟨sub, hs, hn⟩⟩ h8
+      · simp [ho]
+
+/-- … and outside the F03 situation the converse holds: "entitled through a plain subscription OR the picked member
+    of a candidate entry" -/
+theorem entitledShared_iff_or {s : Server} {pk : Msg} (hmix : ¬ NoLocalMixedShared s pk) (n : Nat) :
+    EntitledShared s pk n ↔
+      EntitledVia s pk (subscribers s.topics pk.topic).subs n ∨ EntitledPicked s pk n := by
+  constructor
+  · exact EntitledShared.or
+  · have key : ∀ cid sub, HeldByPublisher s pk sub ∨ pk.origin ≠ cid → (sub.noLocal && pk.origin == cid) = false →
+        ¬ (pk.origin = cid ∧
+          ((∃ sub, (cid, sub) ∈ (subscribers s.topics pk.topic).subs ∧ sub.noLocal = true) ∨
+           (∃ sub, PickedWith s pk.topic cid sub ∧ sub.noLocal = true))) := by
+      rintro cid sub hh h8 ⟨ho, hex⟩
+      subst ho
+      rcases hh with hh | hh
+      · have hf : sub.noLocal = false := by
+          cases hn : sub.noLocal with
+          | false => rfl
+          | true => rw [hn] at h8; simp at h8
+        rcases hex with ⟨sub', h, hn⟩ | ⟨sub', h, hn⟩
+        · exact hmix ⟨sub', sub, Or.inl h, hn, hh, hf⟩
+        · exact hmix ⟨sub', sub, Or.inr h, hn, hh, hf⟩
+      · exact hh rfl
+    rintro (⟨cid, i, sub, h1, h2, h3, h4, h5, hs, h7, h8⟩ | ⟨cid, i, sub, h1, h2, h3, h4, h5, hs, h7, h8⟩)
+    · refine ⟨cid, i, h1, h2, h3, h4, h5, h7, Or.inl ⟨sub, hs⟩, key cid sub ?_ h8⟩
+      by_cases ho : pk.origin = cid
+      · subst ho; exact Or.inl (Or.inl hs)
+      · exact Or.inr ho
+    · have hp := (mem_sharedPicks _ _ _ _).mp hs
+      refine ⟨cid, i, h1, h2, h3, h4, h5, h7, Or.inr ⟨sub, hp⟩, key cid sub ?_ h8⟩
+      by_cases ho : pk.origin = cid
+      · subst ho; exact Or.inl (Or.inr hp)
+      · exact Or.inr ho
+
+/-! ## The candidate map: distinct keys, no empty entry, every member filed under its own filter -/
+
+structure SharedOK (m : List (Str × List (Str × Sub))) : Prop where
+  keys : (m.map Prod.fst).Nodup
+  ne : ∀ g ∈ m, g.2 ≠ []
+  filed : ∀ g ∈ m, ∀ cs ∈ g.2, cs.2.filter = g.1
+  members : ∀ g ∈ m, (g.2.map Prod.fst).Nodup
+
+theorem sharedOK_gatherSharedOne (m : List (Str × List (Str × Sub))) (cs : Str × Sub) (h : SharedOK m) :
+    SharedOK (gatherSharedOne m cs) := by
+  unfold gatherSharedOne
+  cases hg : assocGet m cs.2.filter with
+  | none =>
+    simp only
+    have hnm := assocGet_none_not_mem m _ hg
+    refine ⟨?_, ?_, ?_, ?_⟩
+    · rw [List.map_append, List.nodup_append]
+      refine ⟨h.keys, by simp, ?_⟩
+      intro a ha b hb
+      simp only [List.map_cons, List.map_nil, List.mem_singleton] at hb
+      subst hb
+      intro e
+      subst e
+      exact hnm ha
+    · intro g hgm
+      rcases List.mem_append.mp hgm with hgm | hgm
+      · exact h.ne g hgm
+      · simp only [List.mem_singleton] at hgm; subst hgm; simp
+    · intro g hgm c hc
+      rcases List.mem_append.mp hgm with hgm | hgm
+      · exact h.filed g hgm c hc
+      · simp only [List.mem_singleton] at hgm; subst hgm
+        simp only [List.mem_singleton] at hc; subst hc; rfl
+    · intro g hgm
+      rcases List.mem_append.mp hgm with hgm | hgm
+      · exact h.members g hgm
+      · simp only [List.mem_singleton] at hgm; subst hgm; simp
+  | some mm =>
+    simp only
+    have hmm := assocGet_mem _ _ _ hg
+    refine ⟨nodup_assocSet _ _ _ h.keys, ?_, ?_, ?_⟩
+    · intro g hgm
+      rcases assocSet_mem_cases _ _ _ _ hgm with hgm | hgm
+      · exact h.ne g hgm
+      · subst hgm; exact assocSet_ne_nil _ _ _
+    · intro g hgm c hc
+      rcases assocSet_mem_cases _ _ _ _ hgm with hgm | hgm
+      · exact h.filed g hgm c hc
+      · subst hgm
+        rcases assocSet_mem_cases _ _ _ _ hc with hc | hc
+        · exact h.filed _ hmm c hc
+        · subst hc; rfl
+    · intro g hgm
+      rcases assocSet_mem_cases _ _ _ _ hgm with hgm | hgm
+      · exact h.members g hgm
+      · subst hgm; exact assocSet_nodup_keys _ _ _ (h.members _ hmm)
+
+theorem sharedOK_gatherStep (ns : List Node) (topic : Str) (acc : Subscribers) (g : Gather)
+    (h : SharedOK acc.shared) : SharedOK (gatherStep ns topic acc g).shared := by
+  cases g with
+  | subs p => simp only [gatherStep]; split <;> exact h
+  | inline p => simp only [gatherStep]; (repeat' split) <;> exact h
+  | shared p =>
+    simp only [gatherStep]
+    split
+    · exact h
+    · split
+      · exact h
+      · rename_i n _ _
+        show SharedOK (n.shared.foldl (fun m g => g.2.foldl gatherSharedOne m) acc.shared)
+        refine foldl_inv SharedOK _ _ _ h ?_
+        intro m g hm
+        exact foldl_inv SharedOK _ _ _ hm (fun m cs hm => sharedOK_gatherSharedOne m cs hm)
+
+/-- the candidate map of every index and topic is a map of non-empty maps, each member filed under its filter -/
+theorem subscribers_sharedOK (x : Index) (topic : Str) : SharedOK (subscribers x topic).shared := by
+  have h0 : SharedOK [] := ⟨List.nodup_nil, fun _ h => (by cases h), fun _ h => (by cases h), fun _ h => (by cases h)⟩
+  unfold subscribers
+  split
+  · exact h0
+  · exact foldl_inv (fun acc : Subscribers => SharedOK acc.shared) _ _ _ h0
+      (fun acc g h => sharedOK_gatherStep x.nodes topic acc g h)
+
+/-! ## `permuteBy` is a permutation -/
+
+theorem permuteFuel_perm {α} : ∀ (fuel seed : Nat) (l : List α), l.length ≤ fuel → (permuteFuel fuel seed l).Perm l := by
+  intro fuel
+  induction fuel with
+  | zero => intro seed l _; cases l <;> exact List.Perm.refl _
+  | succ fuel ih =>
+    intro seed l hl
+    cases l with
+    | nil => exact List.Perm.refl _
+    | cons x xs =>
+      have hk : seed % (x :: xs).length < (x :: xs).length := Nat.mod_lt _ (by simp)
+      have hget : (x :: xs)[seed % (x :: xs).length]? = some (x :: xs)[seed % (x :: xs).length] :=
+        List.getElem?_eq_getElem hk
+      unfold permuteFuel
+      simp only [hget]
+      have hlen : ((x :: xs).eraseIdx (seed % (x :: xs).length)).length ≤ fuel := by
+        rw [List.length_eraseIdx_of_lt hk]
+        simp only [List.length_cons] at hl ⊢
+        omega
+      refine (List.Perm.cons _ (ih _ _ hlen)).trans ?_
+      rw [List.eraseIdx_eq_take_drop_succ]
+      have := List.perm_middle (a := (x :: xs)[seed % (x :: xs).length])
+        (l₁ := (x :: xs).take (seed % (x :: xs).length)) (l₂ := (x :: xs).drop (seed % (x :: xs).length + 1))
+      refine this.symm.trans ?_
+      rw [List.getElem_cons_drop hk, List.take_append_drop]
+
+theorem permuteBy_perm {α} (seed : Nat) (l : List α) : (permuteBy seed l).Perm l :=
+  permuteFuel_perm l.length seed l (Nat.le_refl _)
+
+theorem visitOrder_perm (s : Server) (topic : Str) :
+    (visitOrder s topic).Perm (subscribers s.topics topic).shared := permuteBy_perm _ _
+
+theorem visitOrder_nodup (s : Server) (topic : Str) : (visitOrder s topic).Nodup := by
+  rw [(visitOrder_perm s topic).nodup_iff]
+  have hp : (subscribers s.topics topic).shared.Pairwise (fun a b => a.1 ≠ b.1) :=
+    List.pairwise_map.mp (subscribers_sharedOK s.topics topic).keys
+  exact hp.imp (fun h e => h (congrArg Prod.fst e))
+
+/-- a member picked is a member of a candidate entry -/
+theorem pickedWith_member {s : Server} {topic cid : Str} {sub : Sub} (h : PickedWith s topic cid sub) :
+    ∃ g ∈ (subscribers s.topics topic).shared, (cid, sub) ∈ g.2 := by
+  obtain ⟨k, hk⟩ := h
+  obtain ⟨g, hg, hm⟩ := pickAt_mem _ _ _ _ hk
+  exact ⟨g, (visitOrder_perm s topic).mem_iff.mp (List.mem_of_getElem? hg), hm⟩
 
 end Mochi.Broker
